@@ -262,8 +262,7 @@ def combinators(ctx):
     ctx.check(t_ok and b1 == '_penalty=lambdax:0-condition(x)' and b2 == '_penalty=lambdax:notcondition(x)', 'coupler.not_',
               'inequality: 0 - f ; equality: not f', 'not_ inverts as %s / %s' % (b1, b2), f, i0)
     g = ctx.func(CP + ':additive.dec.func')
-    rets = [s for s in g.node.body if isinstance(s, ast.Return)]
-    rt = t(rets[0].value) if rets else None
-    a = ('call', ('name', 'f'), (('name', 'x'), ('star', ('name', 'argz'))), ((None, ('name', 'kwdz')),))
-    p = ('call', ('name', 'penalty'), (('name', 'x'), ('star', ('name', 'args'))), ((None, ('name', 'kwds')),))
-    ctx.check(rt == T.simp(T.padd(a, p)), 'coupler.additive', 'f(x,*argz,**kwdz) + penalty(x,*args,**kwds)', 'additive returns %s' % (T.show(rt) if rt else None), g, g.node)
+    from .. import siblings as SB
+    got = SB.summary(g.node)
+    want = SB.summary_of_source('def func(x, *argz, **kwdz):\n    return f(x, *argz, **kwdz) + penalty(x, *args, **kwds)\n')
+    ctx.check(got == want, 'coupler.additive', 'f(x,*argz,**kwdz) + penalty(x,*args,**kwds)', 'additive composes differently: %s' % SB.diff(got, want), g, g.node)
